@@ -776,11 +776,22 @@ def harness_spawn_class():
             pp = ptyprocess.PtyProcess(proc.pid, m)
             env.fds.discard(m)          # from now on the library owns the master
             self.hs_env = env
+            cb = getattr(env, 'on_spawn', None)
+            if cb is not None:
+                cb(self)
             return pp
     return HarnessSpawn
 
 
 _HS = None
+
+
+def hs_class(spawn_kw=None):
+    global _HS
+    if _HS is None:
+        _HS = harness_spawn_class()
+    _HS._hs_kw = spawn_kw or {}
+    return _HS
 
 
 def pty_spawn(env, command='/bin/true', spawn_kw=None, **kw):
